@@ -85,8 +85,25 @@ def run(ctx):
             ctx.oracle_fail(case, {'what': 'tanp_pixel_scale != sqrt|det J| of det_to_tanp', 'got': ps, 'want': ref})
         # centre
         if jw:
-            cx, cy = c.tanp_to_det(0.0, 0.0)
-            cx, cy = float(np.asarray(cx).ravel()[0]), float(np.asarray(cy).ravel()[0])
+            # the detector position of the tangent point, found with the FORWARD map only (Newton)
+            cx, cy = 512.0, 512.0
+            for _it in range(60):
+                f = np.array(c.det_to_tanp(cx, cy), dtype=float).ravel()
+                hh = 0.5
+                xs4 = np.array([cx + hh, cx - hh, cx, cx])
+                ys4 = np.array([cy, cy, cy + hh, cy - hh])
+                tu, tv = c.det_to_tanp(xs4, ys4)
+                jm = np.array([[(tu[0] - tu[1]) / (2 * hh), (tu[2] - tu[3]) / (2 * hh)],
+                               [(tv[0] - tv[1]) / (2 * hh), (tv[2] - tv[3]) / (2 * hh)]])
+                step = np.linalg.solve(jm, f)
+                cx, cy = cx - step[0], cy - step[1]
+                if max(abs(step[0]), abs(step[1])) < 1e-10:
+                    break
+            ix, iy = c.tanp_to_det(0.0, 0.0)
+            ix, iy = float(np.asarray(ix).ravel()[0]), float(np.asarray(iy).ravel()[0])
+            if math.hypot(ix - cx, iy - cy) > 1e-6:
+                ctx.oracle_fail(case, {'what': 'tanp_to_det(0, 0) is not the detector position whose tangent-plane '
+                                               'coordinates are (0, 0)', 'tanp_to_det': [ix, iy], 'solved': [cx, cy]})
         else:
             cx, cy = (np.array(c.wcs.wcs.crpix) - 1.0).tolist()
             # the tangent point: world_to_tanp(crval) is crpix - 1 and det_to_tanp of that pixel as well
